@@ -174,6 +174,16 @@ class _ConstInliner(ast.NodeTransformer):
         return node
 
 
+class _Fold(ast.NodeTransformer):
+    """len('<constant>') -> its value"""
+
+    def visit_Call(self, node):
+        self.generic_visit(node)
+        if isinstance(node.func, ast.Name) and node.func.id == "len" and len(node.args) == 1 and not node.keywords and isinstance(node.args[0], ast.Constant) and isinstance(node.args[0].value, (str, bytes)):
+            return ast.copy_location(ast.Constant(value=len(node.args[0].value)), node)
+        return node
+
+
 class _ReCanon(ast.NodeTransformer):
     """re.compile(p, f).m(args) -> re.m(p, args, f)"""
 
@@ -553,7 +563,32 @@ class Inliner:
                 return q, None
         return None, None
 
+    def _as_lambdas(self):
+        """a helper outside the inventory that only returns an expression, handed on as a value (a callback): written as a lambda"""
+        for mn, tree in self.trees.items():
+            for n in ast.walk(tree):
+                for f, v in ast.iter_fields(n):
+                    items = v if isinstance(v, list) else [v]
+                    for i, x in enumerate(items):
+                        if isinstance(x, ast.Name) and isinstance(x.ctx, ast.Load) and not (isinstance(n, ast.Call) and f == "func"):
+                            q = mn + "." + x.id
+                            e = self.index.get(q)
+                            if e is None or q in self.known or e[1] is not None or e[2] is not None:
+                                continue
+                            fn = e[0]
+                            if len(fn.body) == 1 and isinstance(fn.body[0], ast.Return) and fn.body[0].value is not None and not fn.decorator_list and not fn.args.vararg and not fn.args.kwarg and not fn.args.defaults:
+                                lam = ast.Lambda(args=copy.deepcopy(fn.args), body=copy.deepcopy(fn.body[0].value))
+                                for a in lam.args.posonlyargs + lam.args.args + lam.args.kwonlyargs:
+                                    a.annotation = None
+                                lam = ast.fix_missing_locations(ast.copy_location(lam, x))
+                                if isinstance(v, list):
+                                    v[i] = lam
+                                else:
+                                    setattr(n, f, lam)
+                                self.stats["sites"].append("? <- " + q)
+
     def run(self):
+        self._as_lambdas()
         for mn, tree in self.trees.items():
             for q, fn, cls, func in qualnames(tree, mn):
                 for _round in range(4):
@@ -946,6 +981,22 @@ def explain_vars(fn):
                 if not (isinstance(s, ast.Assign) and len(s.targets) == 1 and isinstance(s.targets[0], ast.Name)):
                     continue
                 v = s.targets[0].id
+                if isinstance(s.value, ast.Constant) and v in nested_names and v not in params and len(stores.get(v, [])) == 1:
+                    # a constant named once: its uses inside comprehensions / lambdas / local functions read the same constant
+                    everywhere = [x for x in ast.walk(fn) if isinstance(x, ast.Name) and x.id == v]
+                    bound_inside = any(isinstance(x, ast.arg) and x.arg == v for x in ast.walk(fn)) or any(isinstance(x, (ast.Global, ast.Nonlocal)) and v in x.names for x in ast.walk(fn))
+                    all_stores = [x for x in everywhere if isinstance(x.ctx, (ast.Store, ast.Del))]
+                    all_loads = [x for x in everywhere if isinstance(x.ctx, ast.Load)]
+                    rest_ = lst[i + 1:]
+                    if not bound_inside and len(all_stores) == 1 and all_loads and all(any(_contains(r, u) for r in rest_) for u in all_loads):
+                        for u in all_loads:
+                            _replace_node(fn, u, ast.copy_location(copy.deepcopy(s.value), u))
+                        lst.remove(s)
+                        if not lst:
+                            lst.append(ast.copy_location(ast.Pass(), s))
+                        changed = True
+                        break
+                    continue
                 if len(stores.get(v, [])) != 1 or v in params or v in nested_names or not _pure(s.value):
                     continue
                 if any(isinstance(x, ast.Name) and x.id == v for x in ast.walk(s.value)):
@@ -1056,6 +1107,7 @@ def normalize_package(trees, known=None, passes=None):
         if on(3):
             inline_module_constants(t)
             inline_class_constants(t)
+            _Fold().visit(t)
         if on(4):
             with_lock(t)
     if on(6):
